@@ -242,9 +242,32 @@ async def amain(spec: dict) -> dict:
     return rec
 
 
+def _watchdog(spec: dict, out: str) -> None:
+    """If the event loop itself gets blocked, nothing in amain() can time out: dump the stacks and leave."""
+    import faulthandler
+    import threading
+    import traceback
+
+    def fire() -> None:
+        frames = sys._current_frames()
+        stacks = {}
+        for th in threading.enumerate():
+            f = frames.get(th.ident)
+            if f is not None:
+                stacks[th.name] = [f'{fs.filename.split("/")[-1]}:{fs.lineno} {fs.name}' for fs in traceback.extract_stack(f)][-12:]
+        Path(out).write_text(json.dumps({'finished': False, 'watchdog': True, 'stacks': stacks,
+                                         'errors': ['watchdog: the process did not get to the end of the scenario (event loop blocked?)']}))
+        sys.stdout.flush()
+        os._exit(3)
+    t = threading.Timer(spec.get('timeout', 30) + 25, fire)
+    t.daemon = True
+    t.start()
+
+
 def main() -> None:
     logging.disable(logging.CRITICAL)
     spec = json.loads(Path(sys.argv[1]).read_text())
+    _watchdog(spec, sys.argv[2])
     loop = asyncio.new_event_loop()
     rec = loop.run_until_complete(amain(spec))
     Path(sys.argv[2]).write_text(json.dumps(rec, default=str))
